@@ -113,6 +113,27 @@ def run(prog, rep):
         g = gl[0]
         if g['q'].startswith(U.NS) and g['q'].endswith('::endianness'):
             endian[g['q'][len(U.NS):-len('::endianness')]] = g.get('val')
+    # the byte order a traits class declares is the one its UtfType enumerator names (…le = little endian, …be = big endian)
+    en = (prog.enums.get('BitSerializer::Memory::Endian') or {}).get('items')
+    ut = (prog.enums.get(U.NS + 'UtfType') or {}).get('items')
+    if not en or not ut:
+        raise AnalysisBroken('anchor vanished: enum Memory::Endian / UtfType')
+    utf_of = {}
+    for key, gl in prog.globals.items():
+        g = gl[0]
+        if g['q'].startswith(U.NS) and g['q'].endswith('::utfType'):
+            utf_of[g['q'][len(U.NS):-len('::utfType')]] = g.get('val')
+    rev_ut = dict((v, k) for k, v in ut.items())
+    for cls in ('Utf16Le', 'Utf16Be', 'Utf32Le', 'Utf32Be'):
+        name = rev_ut.get(utf_of.get(cls))
+        if name is None or cls not in endian:
+            raise AnalysisBroken('anchor vanished: %s::utfType / endianness' % cls)
+        want = en['big'] if name.lower().endswith('be') else en['little']
+        if endian[cls] == want:
+            rep.ok('R11.1', '%s|declared byte order' % cls, sample={'traits': cls, 'utfType': name, 'endianness': 'big' if want == en['big'] else 'little'})
+        else:
+            rep.finding('R11.1', '%s|declared byte order' % cls, 'include/bitserializer/conversion_detail/convert_utf.h',
+                        '%s (UtfType::%s) declares %s-endian code units' % (cls, name, 'big' if endian[cls] == en['big'] else 'little'))
     for f in sorted(prog.funcs.values(), key=lambda x: x.id):
         for cls in ('Utf16Le', 'Utf16Be', 'Utf32Le', 'Utf32Be'):
             for nm in ('Encode', 'Decode'):
